@@ -71,6 +71,24 @@ RULE = ("random 2-treatment screens (1-3 samples, 3-6 treatments + control, one-
 
 _ORIG_DEFAULT_RNG = np.random.default_rng
 _ORIG_SEEDSEQ = np.random.SeedSequence
+_ORIG_GENERATOR = np.random.Generator
+_ORIG_BITGEN = np.random.BitGenerator
+_BITGEN_NAMES = ("PCG64", "PCG64DXSM", "MT19937", "Philox", "SFC64")
+_GEN_HOOK = [None]         # the active Instr's constructor hook for `numpy.random.Generator(bit_generator)`
+
+
+class _GeneratorMeta(type):
+    def __instancecheck__(cls, obj):
+        return isinstance(obj, (_ORIG_GENERATOR, RecGen))
+
+
+class RecGeneratorClass(metaclass=_GeneratorMeta):
+    """stands in for the class `numpy.random.Generator` while instrumenting: `Generator(PCG64(seed))` is the other way (besides default_rng) of
+    making a generator; isinstance checks keep working"""
+
+    def __new__(cls, bit_generator):
+        hook = _GEN_HOOK[0]
+        return hook(bit_generator) if hook is not None else _ORIG_GENERATOR(bit_generator)
 _SS_LOG = [None]          # the event list of the active Instr (None: not instrumenting)
 
 
@@ -147,6 +165,36 @@ class Instr:
                     return f(*a, **k)
                 return proxy
             setattr(np.random, name, mk(f, name))
+        # bit generators and `Generator(bit_generator)`: a bit generator made without a seed (or from an entropy-less SeedSequence) is FRESH
+        self._bg_tags = {}
+
+        def mk_bg(cls):
+            def factory(seed=None, *a, **k):
+                bg = cls(seed, *a, **k)
+                fresh = seed is None or getattr(seed, "verif_fresh", False)
+                if fresh:
+                    log.append("FRESH.newgen")
+                self._bg_tags[id(bg)] = (bg, "FRESH" if fresh else "G")      # the strong reference keeps the id unique
+                return bg
+            return factory
+        for name in _BITGEN_NAMES:
+            self._saved[name] = getattr(np.random, name)
+            setattr(np.random, name, mk_bg(self._saved[name]))
+
+        def generator(bit_generator):
+            ent = self._bg_tags.get(id(bit_generator))
+            g = _ORIG_GENERATOR(bit_generator)
+            if ent is None or ent[0] is not bit_generator:
+                return g                         # a bit generator made outside the instrumented region: not traced (as before)
+            tag = ent[1]
+            if tag == "G" and self.tag_ids:
+                self.n_seeded += 1
+                tag = "G%d" % self.n_seeded
+            return RecGen(g, tag, log)
+        self._saved["Generator"] = np.random.Generator
+        np.random.Generator = RecGeneratorClass
+        self._gen_prev = _GEN_HOOK[0]
+        _GEN_HOOK[0] = generator
         self._saved["default_rng"] = np.random.default_rng
         self._saved["SeedSequence"] = np.random.SeedSequence
         np.random.SeedSequence = RecSeedSequence
@@ -156,7 +204,9 @@ class Instr:
         def default_rng(seed=None):
             if isinstance(seed, RecGen):
                 return seed                  # numpy: default_rng(generator) returns the generator itself
-            if isinstance(seed, (np.random.Generator, np.random.BitGenerator)):
+            if isinstance(seed, _ORIG_BITGEN) and id(seed) in self._bg_tags:
+                return generator(seed)
+            if isinstance(seed, (_ORIG_GENERATOR, _ORIG_BITGEN)):
                 return _ORIG_DEFAULT_RNG(seed)
             if seed is None:
                 log.append("FRESH.newgen")
@@ -176,6 +226,8 @@ class Instr:
             setattr(np.random, name, f)
         self._saved = {}
         _SS_LOG[0] = self._ss_prev
+        _GEN_HOOK[0] = self._gen_prev
+        self._bg_tags = {}
         return False
 
 
@@ -566,9 +618,12 @@ def op_sample_mcmc(case, G, ins, tmp):
     return "sampleMCMC", toks + ["steps=%d" % (case["n_burnin"] + case["n_thetas"] * case["thin"])], H10.show_holder(h)
 
 
+_VERBOSE = [False]         # set while a case runs under vlib.common.verbose_logging(): the CLI mains then also get --verbose
+
+
 def _run_main(module, argv):
     old = sys.argv
-    sys.argv = argv
+    sys.argv = list(argv) + (["--verbose"] if _VERBOSE[0] else [])
     try:
         with quiet():
             module.main()
@@ -760,14 +815,99 @@ def op_cli_evaluate(case, G, ins, tmp):
     return "cliEvaluateModel", [], common.short_hash(sorted(parts))
 
 
+def op_cli_analyze(case, G, ins, tmp):
+    """analyze_model_evaluation has a --seed option too (plots + summary_statistics.json); no operation of the Lean model: oracles only"""
+    from batchie.cli import analyze_model_evaluation as M
+    from batchie.cli import evaluate_model as E
+    s = build_screen(case["screen"])
+    r = pyrandom.Random(case["data_seed"])
+    inp = os.path.join(tmp, "in")
+    os.makedirs(inp)
+    data, me = os.path.join(inp, "data.h5"), os.path.join(inp, "me.h5")
+    s.save_h5(data)
+    files = []
+    for i, n in enumerate(case["chains"]):
+        fn = os.path.join(inp, "chain%d.h5" % i)
+        make_thetas(r, s, n).save_h5(fn)
+        files.append(fn)
+    _run_main(E, ["evaluate_model", "--screen", data, "--thetas"] + files + ["--output", me])
+    outd = os.path.join(tmp, "out")
+    import warnings
+    with warnings.catch_warnings():
+        warnings.simplefilter("ignore")
+        _run_main(M, ["analyze_model_evaluation", "--model-evaluation", me, "--screen", data, "--thetas"] + files + ["--output-dir", outd, "--seed", str(case["seed"])])
+    with open(os.path.join(outd, "summary_statistics.json")) as f:
+        return None, [], f.read()
+
+
 OPS = {"sparse_cover": op_sparse_cover, "generator": op_generator, "smoother": op_smoother, "holdout_random": op_holdout_random,
        "holdout_plate": op_holdout_plate, "scorer_random": op_scorer_random, "dbal_direct": op_dbal_direct, "policy": op_policy,
        "select_next_plate": op_select_next_plate, "score_chunk": op_score_chunk, "sample_mvn": op_sample_mvn, "gibbs_sweep": op_gibbs_sweep,
        "sample_mcmc": op_sample_mcmc, "cli_prepare": op_cli_prepare, "cli_scores": op_cli_scores, "cli_select": op_cli_select,
        "cli_train": op_cli_train, "cli_evaluate": op_cli_evaluate}
+# commands that are only driven by the seeded-commands stream (too slow for the per-operation loop)
+EXTRA_CLI_OPS = {"cli_analyze": op_cli_analyze}
+OPS_ALL = dict(OPS, **EXTRA_CLI_OPS)
+# batchie.cli module name -> the case kind that drives its main(); the LIST of commands is found by introspection (seeded_commands)
+CLI_DRIVERS = {"prepare_retrospective_simulation": "cli_prepare", "train_model": "cli_train", "calculate_scores": "cli_scores",
+               "select_next_plate": "cli_select", "evaluate_model": "cli_evaluate", "analyze_model_evaluation": "cli_analyze"}
+BIG_SEED = 2 ** 63 + 11
+
+
+def seeded_commands():
+    """every batchie.cli module whose argparse parser has a --seed option"""
+    import importlib
+    import pkgutil
+    import batchie.cli
+    out = []
+    for m in sorted(pkgutil.iter_modules(batchie.cli.__path__), key=lambda m: m.name):
+        if m.name.endswith("_test"):
+            continue
+        mod = importlib.import_module("batchie.cli." + m.name)
+        gp = getattr(mod, "get_parser", None)
+        if gp is None:
+            continue
+        try:
+            if "--seed" in gp()._option_string_actions:
+                out.append(m.name)
+        except Exception:
+            pass
+    return out
 
 
 # ------------------------------------------------------------------ running one case
+def digest_dir(d):
+    """file by file: HDF5 files by every attribute and dataset (bytes, dtype, shape), text files by content, anything else (pdf) by presence"""
+    import h5py
+    out = {}
+    for root, _, files in os.walk(d):
+        for fn in sorted(files):
+            path = os.path.join(root, fn)
+            rel = os.path.relpath(path, d)
+            if fn.endswith((".h5", ".hdf5")):
+                parts = []
+                try:
+                    with h5py.File(path, "r") as f:
+                        def visit(name, obj):
+                            for k in sorted(obj.attrs):
+                                parts.append("%s@%s=%r" % (name, k, np.asarray(obj.attrs[k]).tolist()))
+                            if isinstance(obj, h5py.Dataset):
+                                a = np.asarray(obj[()])
+                                parts.append("%s:%s:%s:%s" % (name, a.dtype, a.shape, a.tobytes().hex() if a.dtype != object else repr(a.tolist())))
+                        for k in sorted(f.attrs):
+                            parts.append("@%s=%r" % (k, np.asarray(f.attrs[k]).tolist()))
+                        f.visititems(visit)
+                    out[rel] = common.short_hash(sorted(parts))
+                except Exception as e:
+                    out[rel] = "unreadable:" + type(e).__name__
+            elif fn.endswith((".txt", ".json", ".csv")):
+                with open(path, "rb") as f:
+                    out[rel] = common.short_hash(f.read().hex())
+            else:
+                out[rel] = "present"
+    return out
+
+
 def execute(case, second):
     """one instrumented run on freshly built inputs"""
     tmp = tempfile.mkdtemp(prefix="verif_c18_")
@@ -779,16 +919,25 @@ def execute(case, second):
         pyrandom.random()
     ins = Instr()
     res = {"events": ins.events}
+    # checklist item 19: the SECOND run of a case marked verbose runs the way `-v/--verbose` runs (it is compared with the plain first run)
+    verbose = bool(second and case.get("verbose"))
     try:
         before = global_sig()
-        with ins:
-            G = ins.make_g(case["seed"])
+        with (common.verbose_logging() if verbose else contextlib.nullcontext()):
+            _VERBOSE[0] = verbose
             try:
-                mop, toks, out = OPS[case["op"]](case, G, ins, tmp)
-                res.update(model_op=mop, toks=toks, out=out, err=None)
-            except Exception as e:
-                res.update(model_op=None, toks=None, out=None, err=type(e).__name__ + ": " + str(e)[:160])
+                with ins:
+                    G = ins.make_g(case["seed"])
+                    try:
+                        mop, toks, out = OPS_ALL[case["op"]](case, G, ins, tmp)
+                        res.update(model_op=mop, toks=toks, out=out, err=None)
+                    except Exception as e:
+                        res.update(model_op=None, toks=None, out=None, err=type(e).__name__ + ": " + str(e)[:160])
+            finally:
+                _VERBOSE[0] = False
         res["gstate_same"] = (global_sig() == before)
+        if case["op"].startswith("cli_"):
+            res["files"] = digest_dir(tmp)
     finally:
         shutil.rmtree(tmp, ignore_errors=True)
     return res
@@ -798,11 +947,35 @@ def in_scope(case):
     return case.get("rng_given", True)
 
 
+ANALYZE_SIGNATURE = "C18:analyze-plots-ignore-seed"
+
+
+def judge_analyze(case, A, B, res):
+    """analyze_model_evaluation --seed: before fix `analyze_model_evaluation hands the --seed generator to the regression plots` the option was
+    accepted and ignored -- plotting.predicted_vs_observed_scatterplot calls seaborn.regplot, whose bootstrap of the confidence band made an
+    unseeded `np.random.default_rng()`, so the plots differed from run to run.  Every draw of the command must come from the generator of --seed."""
+    bad = sorted({e for e in A["events"] + B["events"] if not e.startswith("G.")})
+    if bad:
+        res.fail("analyze_model_evaluation --seed: a draw (the bootstrap of seaborn.regplot's confidence band in plotting.predicted_vs_observed_scatterplot*) comes from a "
+                 "source other than the generator built from --seed; the plots differ between two runs with the same seed", case,
+                 {"non_G": bad, "n_events": len(A["events"])}, "every draw from the generator of --seed", signature=ANALYZE_SIGNATURE)
+    if not (A["gstate_same"] and B["gstate_same"]):
+        res.fail("operation perturbs the process-global random state", case, {"events": A["events"][:10]}, "np.random.get_state() unchanged",
+                 signature="C18:global-state-perturbed:cli_analyze")
+    if (A["err"] is None) != (B["err"] is None) or A["out"] != B["out"] or {k: v for k, v in (A.get("files") or {}).items() if v != "present"} != \
+            {k: v for k, v in (B.get("files") or {}).items() if v != "present"}:
+        res.fail("analyze_model_evaluation run twice with the same --seed writes different summary statistics / data files", case,
+                 {"run1": (A["out"] or A["err"])[:300], "run2": (B["out"] or B["err"])[:300]}, "identical outputs", signature="C18:two-runs-differ:cli_analyze")
+    return A, A["err"] is None
+
+
 def judge(case, res, queue=None):
     """two runs + oracles (+ queue the model line); returns (first run, non-trivial?)"""
     A = execute(case, False)
     B = execute(case, True)
     op = case["op"]
+    if op == "cli_analyze":
+        return judge_analyze(case, A, B, res)
     label = op + ("" if in_scope(case) else ":norng")
     if in_scope(case):
         bad = [e for e in A["events"] + B["events"] if not e.startswith("G.")]
@@ -813,10 +986,18 @@ def judge(case, res, queue=None):
             res.fail("operation perturbs the process-global random state", case, {"events": A["events"][:40]}, "np.random.get_state() unchanged",
                      signature="C18:global-state-perturbed:" + op)
         if (A["err"] is None) != (B["err"] is None) or (A["err"] or "").split(":")[0] != (B["err"] or "").split(":")[0] or A["out"] != B["out"]:
-            res.fail("two runs with identical inputs and an identically seeded generator differ (global generator reseeded differently in between)",
+            res.fail("two runs with identical inputs and an identically seeded generator differ (global generator reseeded differently in between%s)"
+                     % ("; the second run with verbose logging" if case.get("verbose") else ""),
                      case, {"run1": (A["out"] or A["err"])[:300], "run2": (B["out"] or B["err"])[:300]}, "identical outputs",
                      signature="C18:two-runs-differ:" + op)
-    if queue is not None and A["err"] is None:
+        elif A.get("files") != B.get("files"):
+            fa, fb = A.get("files") or {}, B.get("files") or {}
+            diff = sorted(k for k in set(fa) | set(fb) if fa.get(k) != fb.get(k))
+            res.fail("a command run twice with the same --seed on identical input files leaves different files behind (compared file by file%s)"
+                     % ("; the second run with --verbose" if case.get("verbose") else ""), case,
+                     {"differing_files": diff[:6], "run1": {k: fa.get(k) for k in diff[:6]}, "run2": {k: fb.get(k) for k in diff[:6]}},
+                     "identical files", signature="C18:two-runs-differ:" + op)
+    if queue is not None and A["err"] is None and A["model_op"] is not None:
         queue(label, case, " ".join(["c18.trace", A["model_op"]] + A["toks"]), ",".join(A["events"]) if A["events"] else "-")
         if B["err"] is None and B["events"] != A["events"]:
             # equal outputs with a different number of draws is not something the property states: the second run's trace goes to the tie
@@ -901,6 +1082,8 @@ def gen_case(rng, op):
                     n_chunks=nc, chunk_index=rng.randrange(nc), data_seed=rng.getrandbits(31))
     elif op == "cli_select":
         case.update(screen=gen_raw_screen(rng), k=rng.randint(1, 2), n_batch=rng.randint(0, 2), policy=rng.random() < 0.6, data_seed=rng.getrandbits(31))
+    elif op == "cli_analyze":
+        case.update(screen=gen_raw_screen(rng, all_observed=True), chains=[rng.randint(2, 3) for _ in range(rng.randint(1, 2))], data_seed=rng.getrandbits(31))
     elif op == "cli_evaluate":
         case.update(screen=gen_raw_screen(rng, all_observed=True), chains=[rng.randint(1, 3) for _ in range(rng.randint(1, 3))], data_seed=rng.getrandbits(31))
     elif op == "cli_train":
@@ -921,7 +1104,17 @@ def _perturb(gseed, i):
         np.random.normal(size=i)
 
 
+def _vctx(case, variant_index):
+    """checklist item 19: variant 1 of a case marked verbose runs under verbose logging"""
+    return common.verbose_logging() if (case.get("verbose") and variant_index == 1) else contextlib.nullcontext()
+
+
 def train_variant(case, held_k, variant_index):
+    with _vctx(case, variant_index):
+        return _train_variant(case, held_k, variant_index)
+
+
+def _train_variant(case, held_k, variant_index):
     """sampling.sample on a model that holds NO generator (held_k None) or one seeded with held_k (constructor argument rng= for
     SparseDrugCombo, an earlier set_rng for the interaction model); the held generator is tagged HELD"""
     from batchie import sampling
@@ -1063,6 +1256,11 @@ def judge_train_stub(case, res, queue=None):
 
 
 def train_sequence(case, variant_index):
+    with _vctx(case, variant_index):
+        return _train_sequence(case, variant_index)
+
+
+def _train_sequence(case, variant_index):
     """sampling.sample called twice (seeds s1, s2) on ONE real Gibbs model object; every seeded generator is tagged by creation order"""
     from batchie import sampling
     from batchie.core import ThetaHolder
@@ -1239,7 +1437,7 @@ def run_jobs(jobs, timeout=600):
             fn = os.path.join(tmp, "cases%d.json" % j)
             with open(fn, "w") as f:
                 json.dump(cases, f)
-            env = dict(os.environ, PYTHONHASHSEED=str(hs))
+            env = dict(os.environ, PYTHONHASHSEED=str(hs), C18X_VERBOSE=("1" if str(hs) == "2" else "0"))   # item 19: the hash-seed-2 worker runs the marked cases verbosely
             procs.append((key, subprocess.Popen([sys.executable, worker, fn], env=env, stdout=subprocess.PIPE, stderr=subprocess.PIPE, text=True)))
         for key, p in procs:
             try:
@@ -1482,6 +1680,11 @@ def _reuse_make(case):
 
 
 def _reuse_call(obj, call, seed, gseed_variant, case):
+    with _vctx(case, gseed_variant):          # the SECOND call on the used object
+        return _reuse_call_plain(obj, call, seed, gseed_variant, case)
+
+
+def _reuse_call_plain(obj, call, seed, gseed_variant, case):
     _perturb(case["gseed"], gseed_variant)
     ins = Instr()
     r = {"events": ins.events}
@@ -1575,16 +1778,27 @@ def run(ctx, res):
         expect.append(impl)
         meta.append((where, case))
 
-    per_op = ctx.scale(30, 300, 120)
+    import time as _time
+    clock = {"t": _time.process_time(), "w": _time.time()}
+
+    def lap(name):          # CPU seconds of this process / wall seconds per section, for the time budget
+        res.count("cpu_ds." + name, int(10 * (_time.process_time() - clock["t"])))
+        res.count("wall_ds." + name, int(10 * (_time.time() - clock["w"])))
+        clock.update(t=_time.process_time(), w=_time.time())
+    per_op = ctx.scale(24, 300, 120)
     cheap = {"sample_mvn", "policy", "scorer_random", "dbal_direct", "holdout_random", "holdout_plate", "select_next_plate"}
     for op in OPS:
         n = per_op if (op in cheap or ctx.tier != "quick") else max(10, per_op * 3 // 4)
-        if op.startswith("cli_") and ctx.tier != "quick":
-            n = max(20, per_op // 3)
+        if op.startswith("cli_"):
+            n = 14 if ctx.tier == "quick" else max(20, per_op // 3)
         for t in range(n):
             case = gen_case(rng, op)
             if t % 6 == 1:
                 case["seed"] = 0
+            if t % 6 in (1, 4):        # checklist item 19: a deterministic third of the cases (incl. the seed-0 boundary) has its second run under verbose logging
+                case["verbose"] = True
+                res.count("class.verbose-logging")
+                res.count("class.verbose-logging." + op)
             if t in (2, 3):          # the default budget of 5000 triples, C(32,3) = 4960 below and C(33,3) = 5456 above, through every entry point
                 if op == "dbal_direct":
                     case.update(T=30 + t, P=2, E=2, max_combos=None)
@@ -1622,9 +1836,14 @@ def run(ctx, res):
             if t == 0:
                 res.sample({"op": op, "model_line": (" ".join(["c18.trace", A["model_op"]] + A["toks"]) if A["err"] is None else A["err"]),
                             "events": A["events"][:12], "n_events": len(A["events"])})
+    lap("operations")
     for op, fn in (("train_held", judge_train_held), ("train_stub", judge_train_stub), ("train_twice", judge_train_twice)):
         for t in range(ctx.scale(16, 200, 80)):
             case = gen_train_case(rng, op)
+            if t % 5 == 2 and op != "train_stub":
+                case["verbose"] = True
+                res.count("class.verbose-logging")
+                res.count("class.verbose-logging." + op)
             res.evaluations += 1
             res.count("op." + op)
             r = fn(case, res, queue)
@@ -1636,11 +1855,43 @@ def run(ctx, res):
                 res.count(op + "." + case["model"]["kind"])
             if 0 in (case.get("seed"), case.get("s1"), case.get("s2")):
                 res.count("seed0." + op)
+    lap("train_streams")
+    # checklist item 18: EVERY command that has a --seed option (found by introspecting the parsers), seeds 0, 1 and a large one, each run twice
+    # (global numpy / python random state perturbed in between; the second run of seed 0 and of the large seed with --verbose), files compared
+    crng = ctx.subrng("c18cli")
+    for name in seeded_commands():
+        kind = CLI_DRIVERS.get(name)
+        if kind is None:
+            res.notes.append("command %s has a --seed option but no driver in harness/c18.py" % name)
+            res.count("class.entry-point.UNDRIVEN." + name)
+            continue
+        for _ in range(8):                 # a base case on which the command completes (only the preparation command refuses some inputs)
+            base = gen_case(crng, kind)
+            if kind != "cli_prepare" or execute(dict(base, seed=1), False)["err"] is None:
+                break
+        # the plotting command costs > 1 s per run: seeds 0 and the large one in the quick tier
+        for seed in ((0, BIG_SEED) if (kind == "cli_analyze" and ctx.tier == "quick") else (0, 1, BIG_SEED)):
+            case = dict(base, seed=seed, verbose=(seed != 1))
+            res.evaluations += 1
+            res.count("class.entry-point." + name)
+            res.count("class.entry-point.%s.seed_%s" % (name, "big" if seed == BIG_SEED else seed))
+            if case["verbose"]:
+                res.count("class.verbose-logging")
+            A, nontrivial = judge(case, res, queue)
+            if A["err"] is not None:
+                res.count("raised.entry-point." + name)
+            else:
+                res.nontrivial.add(common.short_hash(case))
+    lap("seeded_commands")
     # object-reuse stream
     rrng = ctx.subrng("c18reuse")
     for kind, w in REUSE_PLAN:
         for t in range(w * ctx.scale(1, 8, 4)):
             case = gen_reuse_case(rrng, kind)
+            if t % 3 == 1:
+                case["verbose"] = True
+                res.count("class.verbose-logging")
+                res.count("class.verbose-logging.reuse_" + kind)
             res.evaluations += 1
             res.count("reuse." + kind)
             res.count("class.reuse_with_different_seed." + kind)
@@ -1648,6 +1899,7 @@ def run(ctx, res):
             if nontrivial:
                 res.nontrivial.add(common.short_hash(case))
                 res.count("reuse.drew." + kind)
+    lap("object_reuse")
     # cross-process stream: the same seeded cases in one fresh interpreter per PYTHONHASHSEED
     xcases = gen_xproc_cases(ctx.subrng("c18x"), 2 if ctx.tier == "quick" else 8)
 
@@ -1658,6 +1910,11 @@ def run(ctx, res):
             res.nontrivial.add(common.short_hash(["xproc", case]))
         else:
             res.count("xproc.raised." + case["op"])
+    for i, c in enumerate(xcases):
+        if i % 4 == 1:
+            c["verbose"] = True
+            res.count("class.verbose-logging")
+            res.count("class.verbose-logging.xproc")
     judge_xproc(xcases, list(XPROC_HASHSEEDS), res, xcount)
 
     def ocount(g, digests, tight=False):
@@ -1670,9 +1927,11 @@ def run(ctx, res):
     trng = ctx.subrng("c18tmp")
     judge_order(gen_temporaries_groups(trng, 1 if ctx.tier == "quick" else 5), res, ocount, tight=gen_tight_cases(trng, 2 if ctx.tier == "quick" else 8))
     res.count("xproc.processes", len(XPROC_HASHSEEDS))
+    lap("cross_process")
     vi_case = {"op": "sample_vi", "seed": 5, "gseed": rng.getrandbits(20)}
     res.evaluations += 1
     run_vi(res, vi_case)
+    lap("vi_model")
     if ctx.driver is not None:
         got = ctx.driver.ask(lines + ["c18.trace sampleVI n=1", "c18.excluded sampleVI", "c18.excluded cliTrainModelVI"])
         for l, e, g, (where, case) in zip(lines, expect, got, meta):
